@@ -377,19 +377,19 @@ type grammar struct {
 // Independent table of the delimiters Go's grammar has for each construct (written from the
 // language specification, not from genjen/data.go). Compared as token sequences.
 var grammarTable = map[string]grammar{
-	"Parens":    {"(", ")", "", false},      // ( Expression )
-	"List":      {"", "", ",", false},       // ExpressionList / IdentifierList
-	"Values":    {"{", "}", ",", false},     // LiteralValue
-	"Index":     {"[", "]", ":", false},     // Index / Slice / ArrayType length
-	"Block":     {"{", "}", "", true},       // Block: statements separated by newlines
-	"Defs":      {"(", ")", "", true},       // parenthesised declaration list
-	"Call":      {"(", ")", ",", false},     // Arguments
-	"Params":    {"(", ")", ",", false},     // Parameters
-	"Assert":    {".(", ")", "", false},     // TypeAssertion
-	"Map":       {"map[", "]", "", false},   // MapType key
-	"If":        {"if ", "", ";", false},    // if SimpleStmt ; Expression
+	"Parens":    {"(", ")", "", false},       // ( Expression )
+	"List":      {"", "", ",", false},        // ExpressionList / IdentifierList
+	"Values":    {"{", "}", ",", false},      // LiteralValue
+	"Index":     {"[", "]", ":", false},      // Index / Slice / ArrayType length
+	"Block":     {"{", "}", "", true},        // Block: statements separated by newlines
+	"Defs":      {"(", ")", "", true},        // parenthesised declaration list
+	"Call":      {"(", ")", ",", false},      // Arguments
+	"Params":    {"(", ")", ",", false},      // Parameters
+	"Assert":    {".(", ")", "", false},      // TypeAssertion
+	"Map":       {"map[", "]", "", false},    // MapType key
+	"If":        {"if ", "", ";", false},     // if SimpleStmt ; Expression
 	"Return":    {"return ", "", ",", false}, // return ExpressionList
-	"For":       {"for ", "", ";", false},   // for Init ; Cond ; Post
+	"For":       {"for ", "", ";", false},    // for Init ; Cond ; Post
 	"Switch":    {"switch ", "", ";", false}, // switch SimpleStmt ; Tag
 	"Interface": {"interface{", "}", "", true},
 	"Struct":    {"struct{", "}", "", true},
@@ -465,13 +465,13 @@ func allocFields(al *ssa.Alloc) (map[string]ssa.Value, bool) {
 }
 
 type construct struct {
-	fn                     *ssa.Function
-	name                   string
+	fn                      *ssa.Function
+	name                    string
 	gname, open, close, sep string
-	multi                  bool
-	constant               bool // all delimiter fields are constants
-	alloc                  *ssa.Alloc
-	fields                 map[string]ssa.Value
+	multi                   bool
+	constant                bool // all delimiter fields are constants
+	alloc                   *ssa.Alloc
+	fields                  map[string]ssa.Value
 }
 
 // groupConstructs enumerates *Statement methods that append a freshly built *Group.
